@@ -2,6 +2,7 @@ import Flodym.Driver.NpCmds
 import Flodym.Driver.DsmCmds
 import Flodym.Driver.SysCmds
 import Flodym.Driver.BuildCmds
+import Flodym.Driver.TableCmds
 open Flodym.Driver
 
 structure St where
@@ -11,6 +12,9 @@ structure St where
   build : BuildState := {}
 
 def stepA (s : Store) (toks : List String) : Store × String :=
+    match tableStep s toks with
+    | some r => r
+    | none =>
     match arrayStep s toks with
     | some r => r
     | none =>
